@@ -150,10 +150,15 @@ impl<'a> Run<'a> {
 
     /// Submit one signed transaction; compare with the model. Returns false on violation.
     fn transact(&mut self, rep: &mut WorkerReport, s: &Signer, nonce: u64, variant: &str) -> bool {
+        self.transact_payload(rep, s, nonce, variant, None)
+    }
+
+    /// `reuse`: inscribe the byte-identical transaction of an earlier payload id again.
+    fn transact_payload(&mut self, rep: &mut WorkerReport, s: &Signer, nonce: u64, variant: &str, reuse: Option<u64>) -> bool {
         let (ts, hash) = self.block_ctx();
         let block = self.d.next_height();
         self.uniq += 1;
-        let payload = self.uniq;
+        let payload = reuse.unwrap_or(self.uniq);
         let data = asm::tool_call(asm::OP_SSTORE, &[asm::word_u64(3), asm::word_u64(payload)], &[]);
         let chain_ok = variant != "wrong-chain";
         let mut raw = s.sign(Some(if chain_ok { self.chain_id } else { 1 }), nonce, Some(hist::parse_addr(&self.tool)), &data);
@@ -163,7 +168,7 @@ impl<'a> Run<'a> {
         self.payloads.insert(payload, hist::hx(&data));
         self.script.push(format!("block {}: transact nonce {} ({}) payload {}", block, nonce, variant, payload));
         let idx = self.d.ntx;
-        let r = self.d.exec(Op::Transact { raw: format!("0x{}", raw), enc: Enc::Hex, ctx: Ctx { ts, hash, idx }, iid: format!("c08-{}i0", payload), len: 100_000, txid: format!("0x{:064x}", payload) });
+        let r = self.d.exec(Op::Transact { raw: format!("0x{}", raw), enc: Enc::Hex, ctx: Ctx { ts, hash, idx }, iid: format!("c08-{}-{}i0", payload, self.uniq), len: 100_000, txid: format!("0x{:064x}", self.uniq) });
         rep.evaluations += 1;
         if variant == "undecodable" {
             if !r.is_err() {
@@ -347,7 +352,7 @@ fn exhaustive(ctx: &WorkerCtx, rep: &mut WorkerReport, net: &str) {
     let k = if ctx.thorough() { 4 } else { 3 };
     let perms = permutations(k);
     let ngap = GAPS.len().pow(k as u32 - 1);
-    let variants = ["plain", "duplicate", "replace", "noise"];
+    let variants = ["plain", "duplicate", "replace", "noise", "reinscribe"];
     let mut all: Vec<(usize, usize, &str)> = Vec::new();
     for p in 0..perms.len() {
         for g in 0..ngap {
@@ -395,6 +400,16 @@ fn exhaustive(ctx: &WorkerCtx, rep: &mut WorkerReport, net: &str) {
             let next = run.model.signers.get(&s.addr).map(|m| m.next).unwrap_or(0);
             if *n > next {
                 parked_any = true;
+            }
+            if *v == "reinscribe" && j > 0 {
+                // the byte-identical transaction of every still-waiting nonce is inscribed again
+                let waiting: Vec<(u64, u64)> = run.model.signers.get(&s.addr).map(|m| m.waiting.iter().map(|(n, (p, _))| (*n, *p)).collect()).unwrap_or_default();
+                for (wn, wp) in waiting {
+                    ok = ok && run.transact_payload(rep, &s, wn, "reinscribe-identical", Some(wp));
+                }
+                if !ok {
+                    break;
+                }
             }
             ok = run.transact(rep, &s, *n, "plain");
             if ok && *v == "duplicate" && j == 0 {
@@ -474,7 +489,13 @@ fn random_run(ctx: &WorkerCtx, rep: &mut WorkerReport, net: &str, case_seed: u64
                     1 => "undecodable",
                     _ => "plain",
                 };
-                run.transact(rep, &s, nonce, variant)
+                let waiting: Vec<(u64, u64)> = run.model.signers.get(&s.addr).map(|m| m.waiting.iter().map(|(n, (p, _))| (*n, *p)).collect()).unwrap_or_default();
+                if !waiting.is_empty() && rng.chance(1, 6) {
+                    let (wn, wp) = *rng.pick(&waiting);
+                    run.transact_payload(rep, &s, wn, "reinscribe-identical", Some(wp))
+                } else {
+                    run.transact(rep, &s, nonce, variant)
+                }
             }
             1 => run.finalise(rep, &signers),
             2 => run.finalise(rep, &signers) && run.skip(rep, *rng.pick(&[1u64, 1, 2, 8, 9, 10]), &signers),
